@@ -7,7 +7,7 @@ META = {
     'technique': 'Lean 4 theorems about the backwards trace loop with the "file not in this layer\'s diff" skip and the (location, layer) extraction cache, for ALL layer histories '
                  '(the loop returns the least L with the package in every view L..last; the cache is transparent; the origin is a layer that wrote the file with the package; '
                  'history/layer alignment) + correspondence with Scanner.ScanContainer on real images',
-    'design_ref': 'DESIGN.md §5 C05',
+    'design_ref': 'DESIGN.md §4 (section of C05), §5 (defects), §7 (seeded changes)',
     'text': 'Kernel-checked, unbounded theorems for the model of trace.PopulateLayerDetails and initializeChainLayers. The model is tied to the Go code by building real images '
             '(1..6 history entries, empty layers interleaved, 1-3 package-list files with up to 4 packages, add/rewrite/delete/re-create/no-op/replace-by-symlink; history full, missing or short; context optionally cancelled during the trace), '
             'scanning them with ScanContainer and a line-oriented fake extractor and comparing Index, DiffID and Command of every package; the oracle is the brute-force origin computed from the case.',
